@@ -87,7 +87,7 @@ RetSendTo(h) == IF sk[h].closed THEN ClosedRule(h) /\ UNCHANGED kvars
                      /\ dg' = [dg EXCEPT ![pend[h].a] = @ \cup {<<pend[h].b, pend[h].c, h>>}] /\ UNCHANGED <<sk, queue, sent, rcvd>>
 RetRecvFrom(h) == IF sk[h].closed THEN ClosedRule(h) /\ UNCHANGED kvars
                   ELSE IF dg[h] # {}
-                       THEN \/ \E d \in dg[h] : /\ Ev.ok = 1 /\ Ev.id = d[1] /\ Ev.res = Min2(d[2], pend[h].a)
+                       THEN \/ \E d \in dg[h] : /\ Ev.ok = 1 /\ (d[2] < 2 \/ Ev.id = d[1]) /\ Ev.res = Min2(d[2], pend[h].a)      \* (a datagram shorter than 2 bytes carries no id; an empty one is a datagram too)
                                                 /\ (IO => (Ev.from = d[3] /\ Ev.dataok = 1)) /\ BlockingWait(sk[h])
                                                 /\ dg' = [dg EXCEPT ![h] = @ \ {d}] /\ UNCHANGED <<sk, queue, sent, rcvd>>
                             \/ ~sk[h].blocking /\ Ev.ok = 0 /\ Ev.err = WouldBlock /\ UNCHANGED kvars
